@@ -4,11 +4,14 @@ import (
 	"bytes"
 	"compress/gzip"
 	"context"
+	"encoding/csv"
 	"encoding/json"
 	"errors"
 	"fmt"
 	"io"
 	"sort"
+	"strconv"
+	"strings"
 	"time"
 
 	"github.com/quay/claircore"
@@ -155,6 +158,9 @@ type target struct {
 	valid func(spool []byte) bool
 	// class names the still-valid finding (default: the target's name)
 	class string
+	// special classifies a success with other content that is not a
+	// still-valid feed under another listed finding ("" = none applies)
+	special func(damaged []byte, intact, got result, cl string) string
 }
 
 func (t *target) findingClass() string {
@@ -299,5 +305,134 @@ func targets() []target {
 		parse: func(r io.Reader, _ []byte) result {
 			return enrichResult(cvssE.ParseEnrichment(bg, rc{r}))
 		}})
+	ts = append(ts, fetchTargets()...)
 	return ts
+}
+
+// fetchTargets are the read loops that live in Fetch: the EPSS CSV and the
+// NVD year file behind gzip, and the uncompressed change lists of rhel/vex.
+// The real code is the whole FetchEnrichment / Fetch (+ Parse) of the
+// updater over an in-process transport whose body is the damaged reader.
+func fetchTargets() []target {
+	ps := pipelines("")
+	byName := func(n string) *pipeline {
+		for i := range ps {
+			if ps[i].name == n {
+				return &ps[i]
+			}
+		}
+		panic("no pipeline " + n)
+	}
+	gunzip := func(spool []byte) ([]byte, bool) {
+		zr, err := gzip.NewReader(bytes.NewReader(spool))
+		if err != nil {
+			return nil, false
+		}
+		return readAllTerm(zr)
+	}
+	var ts []target
+	pe := byName("epss")
+	ts = append(ts, target{name: "epss-fetch", loop: "csv-epss", wrapper: "gzip", class: "epss-csv",
+		valid:  validWrapped("gzip", validEPSSCSV),
+		gen:    func(rnd *hx.Rand, size int) ([]byte, []byte) { b := genEPSSCSVVaried(rnd, 2*size); return b, gz(b) },
+		rewrap: gz, unwrap: gunzip,
+		parse: func(r io.Reader, _ []byte) result {
+			return pe.runSite(body{reader: func() io.Reader { return r }}, nil)
+		},
+		special: epssSkipped})
+	pc := byName("cvss")
+	ts = append(ts, target{name: "cvss-fetch", loop: "one-json-drain", wrapper: "gzip", class: "cvss-nvd",
+		valid:  validWrapped("gzip", validNVD),
+		gen:    func(rnd *hx.Rand, size int) ([]byte, []byte) { b := genNVDVaried(rnd, 2002, 2*size); return b, gz(b) },
+		rewrap: gz, unwrap: gunzip,
+		parse: func(r io.Reader, _ []byte) result {
+			return pc.runSite(body{reader: func() io.Reader { return r }}, pc.intactAux(nil))
+		}})
+	pv := byName("vex")
+	// one fixed archive of live advisories; the generated file is the change list
+	archive, names := genVEXArchiveLive(hx.NewRand(0xC15+99), 5)
+	baseAux := func() map[string]body {
+		aux := map[string]body{"archive_latest.txt": {data: []byte("csaf_vex_2024-05-01.tar.zst")}, "changes.csv": {}, "deletions.csv": {}}
+		for n, b := range vexUpdated(archive) {
+			aux[n] = body{data: b}
+		}
+		aux["2023/cve-2023-99999.json"] = body{data: []byte(`{"document":{"tracking":{"id":"CVE-2023-99999","status":"deleted"}}}`)}
+		return aux
+	}
+	countDeleted := func(res result) result {
+		if res.ok() {
+			res.lines = 0
+			for _, it := range res.items {
+				if strings.HasPrefix(it, "deleted:") {
+					res.lines++
+				}
+			}
+		}
+		return res
+	}
+	ts = append(ts, target{name: "vex-deletions", loop: "csv-vex-del", class: "vex-plain", valid: validVEXCSV,
+		gen: func(rnd *hx.Rand, size int) ([]byte, []byte) { b := genVEXCSV(rnd, names, 1+size, false); return b, b },
+		parse: func(r io.Reader, _ []byte) result {
+			return countDeleted(pv.runSite(body{data: archive}, withAux(baseAux(), "deletions.csv", body{reader: func() io.Reader { return r }})))
+		}})
+	ts = append(ts, target{name: "vex-changes", loop: "csv-vex-chg", class: "vex-plain", valid: validVEXCSV,
+		gen: func(rnd *hx.Rand, size int) ([]byte, []byte) { b := genVEXCSV(rnd, names, 1+size, true); return b, b },
+		parse: func(r io.Reader, _ []byte) result {
+			res := pv.runSite(body{data: archive}, withAux(baseAux(), "changes.csv", body{reader: func() io.Reader { return r }}))
+			if res.ok() {
+				// records processed = advisories now present in their updated version,
+				// plus the one that exists only as a change (it reads "deleted")
+				seen := map[string]bool{}
+				for _, it := range res.items {
+					if strings.Contains(it, "An updated flaw was found") {
+						var v struct{ Name string `json:"name"` }
+						json.Unmarshal([]byte(it), &v)
+						seen[v.Name] = true
+					}
+					if it == "deleted:CVE-2023-99999" {
+						seen[it] = true
+					}
+				}
+				res.lines = len(seen)
+			}
+			return res
+		}})
+	return ts
+}
+
+// epssSkipped: the damaged file is a complete gzip stream whose CSV has the
+// expected shape except that some records carry a score that does not parse;
+// the result holds exactly the other records (finding epss-skips-unparsable-record).
+func epssSkipped(damaged []byte, intact, got result, cl string) string {
+	plain, ok := decompressAll("gzip", damaged)
+	if !ok || cl != clSubset {
+		return ""
+	}
+	rd := csv.NewReader(bytes.NewReader(plain))
+	rd.FieldsPerRecord = -1
+	if _, err := rd.Read(); err != nil {
+		return ""
+	}
+	rd.Comment = '#'
+	recs, err := rd.ReadAll()
+	if err != nil || len(recs) < 1 {
+		return ""
+	}
+	good, bad := 0, 0
+	for _, rec := range recs[1:] {
+		if len(rec) != 3 {
+			return ""
+		}
+		_, e1 := strconv.ParseFloat(rec[1], 64)
+		_, e2 := strconv.ParseFloat(rec[2], 64)
+		if e1 == nil && e2 == nil {
+			good++
+		} else {
+			bad++
+		}
+	}
+	if bad > 0 && good == len(got.items) {
+		return "epss-skips-unparsable-record"
+	}
+	return ""
 }
